@@ -339,3 +339,8 @@ func OnUnlock(l any, f func()) {}
 // Unreachable states that no feasible path gets here (an assertion that is
 // exempt from the vacuity check).
 func Unreachable(msg string) { panic(assertFailed{msg}) }
+
+// OnYield registers a function the engine calls whenever the code under test
+// parks on a condition variable (between releasing and re-acquiring the lock).
+func OnYield(f func()) {}
+func Yield()           {}
